@@ -1,5 +1,5 @@
 """Render family: stages for C15, C02, C03, C04."""
-import json, os, re
+import json, os, re, shutil
 from vlib import *
 from parserfam import stage_gen_trees, stage_mc_parser, stage_groups, stage_judge_trees
 
@@ -56,6 +56,27 @@ CHECK_DEADLOCK FALSE
 """
 
 
+def stage_mc_render(run, kinds, depth=2, name="mc_render"):
+    """TLC checks the driver model itself (Render.tla) over the generator's tree space: the model-level form of C04."""
+    cases, g = stage_gen_trees(run, kinds, depth, ws=0, name="gen_" + name)
+    d = run.sub(name)
+    shutil.copy(cases, os.path.join(d, "cases.ndjson"))
+    cfg = "SPECIFICATION Spec\nCONSTANTS\n  CaseFile = \"cases.ndjson\"\nINVARIANTS C04Model QuoteModel Covered\nCHECK_DEADLOCK FALSE\n"
+    out, rc, secs = run.tlc(d, "MC_Render", cfg, workers=1, timeout=1800, xss=True)
+    gen, dist = run.tlc_stats(out)
+    err = run.tlc_error(out)
+    run.states += dist
+    run.transitions += gen
+    run.stage(name, leaf_kinds=kinds, depth=depth, trees=g["trees"], states=dist, invariants=["C04Model", "QuoteModel"], secs=round(secs, 1), error=err)
+    if err:
+        # a model-level counterexample is a lead, not a verdict: the model is bound to the code by the RENDER-DRIFT comparison
+        run.notes.append("MODEL: TLC reported '%s' on the driver model (see %s/MC_Render.out); verdicts still come from the real code" % (err, d))
+        run.drift.append({"stage": name, "what": "the driver model violates its own invariant: " + str(err)[:200]})
+    if gen == 0:
+        raise Broken("TLC produced no states for MC_Render: " + out[-800:])
+    os.remove(os.path.join(d, "cases.ndjson"))
+
+
 def stage_gen_sql(run, module="GenSql", name="gen_sql"):
     d = run.sub(name)
     out, rc, secs = run.tlc(d, module, GENSQL_CFG % run.tier, workers=1, timeout=1800, seed=run.seed, xss=True)
@@ -83,6 +104,10 @@ def stage_judge_sql(run, resfile, prop, name="judge_sql", keep=False):
     j, vfiles, d = run.judge(name, "JudgeSql", prop, resfile, unit=400, keep=keep)
     run.traces += j["judged"]
     run.distinct += j["judged"]
-    run.stage(name, prop=prop, cases_judged=j["judged"], failures=j["failures"], known=j["known"], secs=j["secs"], jvms=j["jvms"])
+    run.stage(name, prop=prop, cases_judged=j["judged"], failures=j["failures"], known=j["known"], secs=j["secs"], jvms=j["jvms"],
+              render_model_predicted=j.get("render_predicted", 0), render_model_drift=j.get("render_drift", 0))
+    if j.get("render_drift", 0):
+        run.drift.append({"stage": name, "what": "SQL text or parameters differ from the driver model Render.tla for %d cases" % j["render_drift"],
+                          "examples": j.get("drift_examples", [])[:3]})
     for vf in vfiles:
         run.add_verdicts(vf, lambda v: {"pipeline": "sqlcase", "casefile": None, "q": v.get("q"), "prop": prop})
